@@ -251,10 +251,12 @@ def aggregate(spec, results):
     fault_free_runs = 0
     forks = 0
     pairset = set()
+    fpset = set()
     from . import gen as _gen
     for r in runs:
         meta = r["meta"]
         pairset |= _gen.pairs(meta)
+        fpset.update(r.get("state_fps") or [])
         if spec.nontrivial(meta):
             sigs.add(hashlib.sha256(repr(spec.signature(meta)).encode()).hexdigest())
         for k, v in sorted(meta.get("fired", {}).items()):
@@ -277,7 +279,7 @@ def aggregate(spec, results):
             fault_free_runs += 1
         forks += r.get("forks", 0)
     return {"runs": len(runs), "ops": sum(r["nops"] for r in runs), "distinct_nontrivial": len(sigs),
-            "pairs": len(pairset), "fault_counts": fault, "hits": hits, "skipped": skipped, "triples": len(triples), "samples": samples, "raw_runs": raw_runs,
+            "pairs": len(pairset), "state_fps": len(fpset), "fault_counts": fault, "hits": hits, "skipped": skipped, "triples": len(triples), "samples": samples, "raw_runs": raw_runs,
             "raw_divergent_runs": raw_div, "fault_free_runs": fault_free_runs, "forks": forks,
             "seeds": [r["seed"] for r in runs[:20]]}
 
@@ -314,6 +316,7 @@ def write_evidence(prop, tier, base, agg, wall, violations, harness_errors, det_
             "samples": agg["samples"] or [{"note": "no sample run in this batch"}],
             "runs": agg["runs"],
             "distinct_event_observation_pairs": agg["pairs"],
+            "distinct_object_table_states_at_audits": agg["state_fps"],
             "runs_per_hour": int(agg["runs"] / max(wall, 1e-9) * 3600),
             "ops_per_hour": int(agg["ops"] / max(wall, 1e-9) * 3600),
             "simulated_time": f"n/a – no clock in the SUT; logical steps (ops executed and compared) = {agg['ops']}",
